@@ -460,6 +460,19 @@ func (w *WAF) Validate() error {
 		return errors.New("request body json depth limit should be bigger than 0")
 	}
 
+	// A chain starter must have been followed by its link: left alone (another directive in between,
+	// or the end of the configuration) it would run its disruptive and flow actions on its own condition.
+	rules := w.Rules.GetRules()
+	for i := range rules {
+		last := &rules[i]
+		for last.Chain != nil {
+			last = last.Chain
+		}
+		if last.HasChain {
+			return fmt.Errorf("rule %d (%s line %d) uses the chain action but no rule follows it", rules[i].ID_, rules[i].File_, rules[i].Line_)
+		}
+	}
+
 	if environment.HasAccessToFS {
 		if w.UploadKeepFiles != types.UploadKeepFilesOff && w.UploadDir == "" {
 			return errors.New("SecUploadDir is required when SecUploadKeepFiles is enabled")
